@@ -14,14 +14,14 @@ import (
 )
 
 type result struct {
-	obl     obligation
-	status  string // unsat (discharged), sat, unknown, timeout, vacuous
-	solver  string
-	secs    float64
-	model   map[string]string
-	file    string
-	bytes   int
-	rawOut  string
+	obl    obligation
+	status string // unsat (discharged), sat, unknown, timeout, vacuous
+	solver string
+	secs   float64
+	model  map[string]string
+	file   string
+	bytes  int
+	rawOut string
 }
 
 var symRe = regexp.MustCompile(`[A-Za-z_][A-Za-z0-9_]*![0-9]+`)
@@ -140,6 +140,9 @@ func (g *gen) discharge(base string, opt dischargeOpts) []result {
 		}
 	}
 	res := make([]result, len(g.obls))
+	if g.replay != nil {
+		g.replay.queryTerms() // computed once, before the workers start
+	}
 	var wg sync.WaitGroup
 	sem := make(chan struct{}, opt.parallel)
 	os.MkdirAll(opt.dir, 0o755)
@@ -250,7 +253,7 @@ func (g *gen) discharge(base string, opt dischargeOpts) []result {
 					}
 					n++
 					go func(s solverSpec) {
-						st2, out2 := runSolver(s, file, opt.timeout)
+						st2, out2 := runSolver(s, file, maxi(opt.timeout/2, 2))
 						ch <- ans{st2, out2, s.name}
 					}(s)
 				}
